@@ -152,3 +152,44 @@ func (e *Env) Race(a, b []string) (string, string) {
 	close(start)
 	return <-ra, <-rb
 }
+
+// CrashInOpen: process-kill copy, then the recovery itself crashes: the copy is
+// opened with the crash point armed; if the open reaches it, the directory as it
+// is at that moment becomes the new crash state and is opened again.  Reports
+// whether the point was reached.
+func (e *Env) CrashInOpen(point string) (fired bool, err error) {
+	current = e
+	armed := false
+	err = e.Crash(func(string) error {
+		// from here on e.Dir is the copy: arm the point for the open that follows
+		e.crashPoint, e.crashDir = point, ""
+		armed = true
+		return nil
+	})
+	if !armed {
+		return false, err
+	}
+	e.crashPoint = ""
+	if e.crashDir == "" {
+		return false, err
+	}
+	// the first recovery is abandoned
+	ndir := e.crashDir
+	e.crashDir = ""
+	if !e.dead {
+		e.CloseShard()
+		if e.sfile != nil && !e.dead {
+			WithTimeout(func() error { return e.sfile.Close() })
+		}
+	}
+	os.RemoveAll(e.Dir)
+	if e.dead {
+		os.RemoveAll(ndir)
+		return true, ErrTimeout
+	}
+	e.Dir, e.Sh, e.sfile, e.appended = ndir, nil, nil, false
+	if err := e.openSeriesFile(); err != nil {
+		return true, err
+	}
+	return true, e.Open()
+}
